@@ -248,7 +248,7 @@ MANIFEST = {
              "operator, conversion or function is attributed to its instruction and operand classes. Deeper expressions are sampled by TLC "
              "(RandomElement, seeded) and judged by the same oracle.",
              note="number model exact on dyadic rationals, powers of ten and IEEE specials; inexact IEEE results are unjudged; data tree is the harness mock; "
-                  "node-set vs boolean comparisons unjudged (statement and XPath differ)", design="4 C01", technique=XP),
+                  "a node-set against a boolean is judged through boolean(node-set) where that and the member-wise reading of the statement agree (non-empty set without empty members), unjudged otherwise", design="4 C01", technique=XP),
  "C02": dict(text="The spec gives, for every supported location path (absolute/relative/current()/deref(), up-steps, predicates in every order, "
              "nested operand paths), the exact sequence of data-tree requests XPath designates; TLC proves the fork's two-stack mechanism "
              "(path stack, predicate key stack, both counters) issues exactly those on the bounded families; the real machine is replayed on a recording "
